@@ -35,14 +35,14 @@ import (
 
 // Op is one call on the storage.
 type Op struct {
-	Kind string `json:"op"` // Set | Swap | Get
+	Kind string `json:"op"` // Set | Swap | Get | WriteTo | Reload | Fix
 	I    int    `json:"i"`
 	V    int    `json:"v,omitempty"`
 }
 
 // Case re-executes one judged history / construction.
 type Case struct {
-	Part    string   `json:"part"` // history | ctor | refuse | wire | wirefix | zero
+	Part    string   `json:"part"` // history | ctor | refuse | wire | wirefix | zero | chain
 	B       int      `json:"b"`
 	N       int      `json:"n"`
 	Init    string   `json:"init,omitempty"` // zero | mask | alt | count | values
@@ -52,6 +52,9 @@ type Case struct {
 	Ops     []Op     `json:"ops,omitempty"`
 	B2      int      `json:"b2,omitempty"`    // wire: width of the previously used destination (-1 fresh)
 	Delta   int      `json:"delta,omitempty"` // refuse / wirefix: length offset
+	Frag    int      `json:"frag,omitempty"`          // wire: the reader hands out at most this many bytes per Read (0: all)
+	EOFData bool     `json:"eof_with_data,omitempty"` // wire: the reader returns io.EOF together with the last bytes
+	ByteRd  bool     `json:"byte_reader,omitempty"`   // wire: the reader also implements io.ByteReader
 
 	t *tmpl // precomputed background (not serialised; recomputed from Init when nil)
 }
@@ -135,6 +138,8 @@ type scratch struct {
 	raw   []uint64
 	model []uint64
 	pack  []uint64
+	wire  []byte
+	wbuf  bytes.Buffer
 }
 
 // transitions executed (operations applied to a real object); added to the report in batches
@@ -214,9 +219,9 @@ func build(c *Case, model []uint64, sc *scratch) (bs *level.BitStorage, rawCheck
 	return
 }
 
-// runHistory is the judge of parts (i) and (ii): build the start state, apply the operations,
-// compare everything after every operation. checkFrom: operations before that index are a
-// replayed prefix (already judged when their state was discovered) and are applied unjudged.
+// runHistory is the judge of parts (i), (ii) and (v): build the start state, apply the
+// operations, compare everything after every operation. checkFrom: operations before that index
+// are a replayed prefix (already judged when their state was discovered) and are applied unjudged.
 func runHistory(c *Case, checkFrom int) {
 	sc := scratchPool.Get().(*scratch)
 	defer scratchPool.Put(sc)
@@ -231,9 +236,6 @@ func runHistory(c *Case, checkFrom int) {
 	} else {
 		model = background(c.Init, b, n, c.Vals)
 	}
-	mask := refpal.Mask(b)
-	var nt int64
-	defer func() { atomic.AddInt64(&transTotal, nt) }()
 	fail := func(class string, size int, detail string) {
 		rep.FailLazy(class, size, func() engine.Failure {
 			return engine.Failure{Detail: fmt.Sprintf("b=%d n=%d init=%s: %s", b, n, c.Init, detail), Case: cloneCase(c)}
@@ -250,9 +252,41 @@ func runHistory(c *Case, checkFrom int) {
 			return
 		}
 	}
-	for oi, op := range c.Ops {
+	x := opCtx{b: b, n: n, pfx: "history/", rawCheck: rawCheck, sc: sc, fail: fail}
+	x.apply(bs, model, c.Ops, checkFrom)
+}
+
+// opCtx applies operations to one real object next to the model and judges each of them.
+// Classes are pfx + <op kind> + "/" + <failure kind> + "/" + tag + shape.
+type opCtx struct {
+	b, n     int
+	pfx, tag string
+	rawCheck bool
+	sc       *scratch
+	fail     func(class string, size int, detail string)
+}
+
+func isAccess(kind string) bool { return kind == "Set" || kind == "Swap" || kind == "Get" }
+
+// apply returns false when a failure was recorded (or the history was abandoned).
+func (x *opCtx) apply(bs *level.BitStorage, model []uint64, ops []Op, checkFrom int) bool {
+	b, n, sc, fail := x.b, x.n, x.sc, x.fail
+	mask := refpal.Mask(b)
+	var nt int64
+	defer func() { atomic.AddInt64(&transTotal, nt) }()
+	shp := func(i int) string { return x.tag + shape(b, n, i) }
+	for oi, op := range ops {
 		judged := oi >= checkFrom
-		size := n*8 + len(c.Ops)
+		size := n*8 + len(ops)
+		pfx := x.pfx + op.Kind + "/"
+		if !isAccess(op.Kind) {
+			// WriteTo / Reload / Fix: operations of the wire half of the statement on a live object
+			nt++
+			if !x.wireOp(bs, model, op, oi, pfx, size) {
+				return false
+			}
+			continue
+		}
 		badI := op.I < 0 || op.I >= n
 		badV := op.Kind != "Get" && (op.V < 0 || uint64(op.V) > mask)
 		var ret int
@@ -264,12 +298,9 @@ func runHistory(c *Case, checkFrom int) {
 				ret = bs.Swap(op.I, op.V)
 			case "Get":
 				ret = bs.Get(op.I)
-			default:
-				engine.HarnessError("unknown op %q", op.Kind)
 			}
 		})
 		nt++
-		pfx := "history/" + op.Kind + "/"
 		if badI || badV {
 			// "an out-of-range index or value panics without modifying anything"
 			if judged && !panicked {
@@ -277,20 +308,20 @@ func runHistory(c *Case, checkFrom int) {
 				if !badI {
 					what = "value"
 				}
-				fail(pfx+"no-panic-on-out-of-range-"+what+"/"+shape(b, n, op.I), size, fmt.Sprintf("%s(%d,%d) returned normally (op %d)", op.Kind, op.I, op.V, oi))
-				return
+				fail(pfx+"no-panic-on-out-of-range-"+what+"/"+shp(op.I), size, fmt.Sprintf("%s(%d,%d) returned normally (op %d)", op.Kind, op.I, op.V, oi))
+				return false
 			}
 			if judged {
-				if k, d, at := compareAll(bs, b, model, rawCheck, sc); k != "" {
-					fail(pfx+"modified-by-rejected-call/"+k+"/"+shape(b, n, at), size, fmt.Sprintf("after rejected %s(%d,%d): %s", op.Kind, op.I, op.V, d))
-					return
+				if k, d, at := compareAll(bs, b, model, x.rawCheck, sc); k != "" {
+					fail(pfx+"modified-by-rejected-call/"+k+"/"+shp(at), size, fmt.Sprintf("after rejected %s(%d,%d): %s", op.Kind, op.I, op.V, d))
+					return false
 				}
 			}
 			continue
 		}
 		if panicked {
-			fail(pfx+"panic-on-valid-call/"+frame+"/"+pk+"/"+shape(b, n, op.I), size, fmt.Sprintf("%s(%d,%d) panicked: %s (op %d)", op.Kind, op.I, op.V, pk, oi))
-			return
+			fail(pfx+"panic-on-valid-call/"+frame+"/"+pk+"/"+shp(op.I), size, fmt.Sprintf("%s(%d,%d) panicked: %s (op %d)", op.Kind, op.I, op.V, pk, oi))
+			return false
 		}
 		old := model[op.I]
 		if op.Kind != "Get" {
@@ -302,15 +333,15 @@ func runHistory(c *Case, checkFrom int) {
 			var g int
 			if _, _, p := engine.Guard(func() { g = bs.Get(op.I) }); p || uint64(g) != model[op.I] {
 				atomic.AddInt64(&abandoned, 1)
-				return
+				return false
 			}
 			continue
 		}
 		if op.Kind != "Set" && uint64(ret) != old {
-			fail(pfx+"wrong-result/"+shape(b, n, op.I), size, fmt.Sprintf("%s(%d,%d) returned %d, previous value was %d (op %d)", op.Kind, op.I, op.V, ret, old, oi))
-			return
+			fail(pfx+"wrong-result/"+shp(op.I), size, fmt.Sprintf("%s(%d,%d) returned %d, previous value was %d (op %d)", op.Kind, op.I, op.V, ret, old, oi))
+			return false
 		}
-		if k, d, at := compareAll(bs, b, model, rawCheck, sc); k != "" {
+		if k, d, at := compareAll(bs, b, model, x.rawCheck, sc); k != "" {
 			where := "other-index"
 			if at == op.I {
 				where = "target-index"
@@ -318,10 +349,11 @@ func runHistory(c *Case, checkFrom int) {
 			if k != "get-mismatch" {
 				where = "raw"
 			}
-			fail(pfx+k+"/"+where+"/"+shape(b, n, op.I), size, fmt.Sprintf("after %s(%d,%d) (op %d): %s", op.Kind, op.I, op.V, oi, d))
-			return
+			fail(pfx+k+"/"+where+"/"+shp(op.I), size, fmt.Sprintf("after %s(%d,%d) (op %d): %s", op.Kind, op.I, op.V, oi, d))
+			return false
 		}
 	}
+	return true
 }
 
 func cloneCase(c *Case) Case {
@@ -624,8 +656,8 @@ func runWire(c Case) {
 	defer scratchPool.Put(sc)
 	b, n := c.B, c.N
 	model := background(c.Init, b, n, c.Vals)
-	src := Case{B: b, N: n, ViaCtor: false}
-	bs, _, perr := build(&src, model, sc)
+	src := Case{B: b, N: n, ViaCtor: c.Garbage, Garbage: c.Garbage}
+	bs, exact, perr := build(&src, model, sc)
 	if perr != "" {
 		failCase("wire/build/panic/"+shape(b, n, -1), n, c, perr)
 		return
@@ -645,11 +677,18 @@ func runWire(c Case) {
 	longs, used, err := refpal.ReadLongArray(wire)
 	want := refpal.Pack(b, model)
 	ok := err == nil && used == len(wire) && len(longs) == len(want)
-	if ok {
+	if ok && exact {
 		for i := range want {
 			if longs[i] != want[i] {
 				ok = false
 			}
+		}
+	} else if ok {
+		// source built from longs with garbage in the padding: only the value bits are specified
+		vals, uerr := refpal.Unpack(b, n, longs)
+		ok = uerr == nil
+		for i := 0; ok && i < n; i++ {
+			ok = vals[i] == model[i]
 		}
 	}
 	if !ok {
@@ -672,7 +711,7 @@ func runWire(c Case) {
 		failCase("wire/build-destination/panic", n, c, pk)
 		return
 	}
-	rd := &engine.PlainReader{Data: append(append([]byte(nil), wire...), 0xA5, 0x5A, 0xA5)}
+	rd := newEnvReader(wire, c)
 	var rn int64
 	var rerr, ferr error
 	if pk, frame, p := engine.Guard(func() {
@@ -693,15 +732,18 @@ func runWire(c Case) {
 			used2 = "used-same-width"
 		}
 	}
+	if env := envName(c); env != "" {
+		used2 += "," + env
+	}
 	if rerr != nil || ferr != nil {
 		failCase("wire/ReadFrom+Fix/error-on-own-output/"+used2+","+shape(b, n, -1), n, c, fmt.Sprintf("ReadFrom err=%v Fix err=%v", rerr, ferr))
 		return
 	}
-	if rn != int64(len(wire)) || rd.Pos != len(wire) {
-		failCase("wire/ReadFrom/consumed-count/"+used2+","+shape(b, n, -1), n, c, fmt.Sprintf("returned n=%d, took %d bytes from the reader, wire has %d", rn, rd.Pos, len(wire)))
+	if rn != int64(len(wire)) || rd.pos() != len(wire) {
+		failCase("wire/ReadFrom/consumed-count/"+used2+","+shape(b, n, -1), n, c, fmt.Sprintf("returned n=%d, took %d bytes from the reader, wire has %d", rn, rd.pos(), len(wire)))
 		return
 	}
-	if k, d, at := compareAll(dst, b, model, true, sc); k != "" {
+	if k, d, at := compareAll(dst, b, model, exact, sc); k != "" {
 		failCase("wire/ReadFrom+Fix/"+k+"/"+used2+","+shape(b, n, at), n, c, d)
 		return
 	}
@@ -718,9 +760,19 @@ func runWire(c Case) {
 			return
 		}
 		model[n-1] = uint64(v)
-		if k, d, at := compareAll(dst, b, model, true, sc); k != "" {
+		if k, d, at := compareAll(dst, b, model, exact, sc); k != "" {
 			failCase("wire/Swap-after-ReadFrom/"+k+"/"+used2+","+shape(b, n, at), n, c, d)
+			return
 		}
+	}
+	// ... and keep using it as an array: the whole single-operation menu (boundary values, rejected
+	// calls, WriteTo) on the object that came out of ReadFrom+Fix
+	if b > 0 {
+		po := postOps(b, n)
+		x := opCtx{b: b, n: n, pfx: "wire/after-Fix/", tag: used2 + ",", rawCheck: exact, sc: sc,
+			fail: func(class string, size int, detail string) { failCase(class, size, c, detail) }}
+		x.apply(dst, model, po, 0)
+		atomic.AddInt64(&postOpsApplied, int64(len(po)))
 	}
 }
 
